@@ -1,5 +1,6 @@
 import StepModel.P21.Dict
 import StepModel.AttrNull
+import StepModel.Generated.P21PcdGen
 /-!
 # `P21.Reader` — the two-pass Part 21 reader of stepcode over the `IStream` model
 
@@ -97,6 +98,20 @@ def readComment (s : IStream) : IStream :=
     else s3.putback c2
   else s2.putback c
 
+/-- `ReadPcd( in )`: an explicit print control directive `\N\` / `\F\` (Part 21 edition 1).  The unrepaired function ends
+    with one more `in.get( c )` after the closing backslash: the character that follows the directive is lost
+    (`Generated.pcdEatsNextChar`, regenerated from `read_func.cc` by `tools/extract.d/p21rw.py`). -/
+def readPcd (s : IStream) : IStream :=
+  let (c, s1) := getInto 0 s
+  if c == 92 then
+    let (c2, s2) := getInto c s1
+    if c2 == 70 || c2 == 78 then
+      let (c3, s3) := getInto c2 s2
+      if c3 == 92 then (if Generated.pcdEatsNextChar then (getInto c3 s3).2 else s3)
+      else s3
+    else s2
+  else s1
+
 def readTokenSeparatorAux : Nat → IStream → IStream
   | 0, s => s
   | fuel + 1, s =>
@@ -105,6 +120,7 @@ def readTokenSeparatorAux : Nat → IStream → IStream
       let s1 := s.ws
       let (c, s2) := s1.peekC
       if c == 47 then readTokenSeparatorAux fuel (readComment s2)
+      else if c == 92 then readTokenSeparatorAux fuel (readPcd s2)
       else s2
 
 /-- `ReadTokenSeparator( in )`; every round that continues consumes the `/`, so `right.length + 2` rounds suffice -/
